@@ -38,6 +38,7 @@ type impTarget struct {
 	elem               string   // name of a type treated as an ABSTRACT element type F with operations mul / one / inv (field level)
 	abstract           []string // package-local functions called as ABSTRACT parameters (hash arguments dropped); their source text is
 	// emitted as `abstractSrc` so that an edit of them breaks the proofs that pin it
+	mode string // "h2f": Hash / SetBigInt of a field package (imp_h2f.go): parameters zeroF / setBigIntF / ExpandMsgXmd instead of mul / one / inv
 }
 
 var impTargets = []impTarget{
@@ -113,6 +114,11 @@ type impPkg struct {
 	absDecl    map[string]*ast.FuncDecl
 	absCalled  []string
 	translated map[string]*impSig // pure package-local functions translated so far (callable from later ones)
+	consts     map[string]string  // package-level integer constants `Name = literal` (mode h2f)
+	constsUsed []string
+	modulus    string             // mode h2f: the literal of `_modulus.SetString("…", 16)` in init(), as a Lean hexadecimal numeral
+	imports    map[string]string  // local package name -> import path
+	elemMeth   map[string]*impSig // methods `func (z *Element) M(…) *Element` of this target translated so far (callable as X.M(…))
 }
 
 type impSig struct {
@@ -284,6 +290,8 @@ func (p *impPkg) zero(t *ity) string {
 		return "()"
 	case "hash":
 		return "{}"
+	case "bigint": // the zero value of big.Int is 0
+		return "0"
 	case "error":
 		return "Err.nil"
 	case "map":
@@ -299,10 +307,14 @@ func (p *impPkg) zero(t *ity) string {
 // ---------------------------------------------------------------------------------------------- loading
 
 func loadImp(tg impTarget) *impPkg {
-	p := &impPkg{tg: tg, fset: token.NewFileSet(), structs: map[string][]impField{}, errVars: map[string]string{}, funcs: map[string]*ast.FuncDecl{}, absDecl: map[string]*ast.FuncDecl{}, translated: map[string]*impSig{}}
+	p := &impPkg{tg: tg, fset: token.NewFileSet(), structs: map[string][]impField{}, errVars: map[string]string{}, funcs: map[string]*ast.FuncDecl{}, absDecl: map[string]*ast.FuncDecl{}, translated: map[string]*impSig{},
+		consts: map[string]string{}, imports: map[string]string{}, elemMeth: map[string]*impSig{}}
 	f, err := parser.ParseFile(p.fset, filepath.Join(repo, tg.dir, tg.file), nil, parser.ParseComments)
 	if err != nil {
 		die("imp: parse: %v", err)
+	}
+	if tg.mode == "h2f" {
+		p.loadH2F(f)
 	}
 	// pass 1: struct names (so that field types can refer to structs declared later)
 	var specs []*ast.TypeSpec
@@ -541,6 +553,15 @@ func (p *impPkg) translateFunc(name string) string {
 		// `func (z *Element) M(…) *Element`: the methods of the element type return their receiver; the def returns the new value of z
 		f.retSelf = true
 		f.results = nil
+		if p.tg.mode == "h2f" {
+			sig := &impSig{}
+			for _, fl := range fd.Type.Params.List {
+				for range fl.Names {
+					sig.params = append(sig.params, p.paramType(fl.Type))
+				}
+			}
+			defer func() { p.elemMeth[name] = sig }()
+		}
 	}
 	u := &iuses{}
 	c := &ictx{uses: u,
@@ -596,6 +617,9 @@ func impPassOf(out string) string {
 	if strings.HasPrefix(b, "Exp_") || b == "ExpAll" {
 		return "Exp"
 	}
+	if strings.HasPrefix(b, "H2F_") || b == "H2FAll" {
+		return "H2F"
+	}
 	return b
 }
 
@@ -609,7 +633,7 @@ func impPasses() []string {
 			res = append(res, p)
 		}
 	}
-	return res
+	return append(res, "H2F")
 }
 
 func runImp() {
@@ -625,6 +649,16 @@ func runImp() {
 		}
 		targets = append(targets, impTarget{dir: d, file: "element.go", ns: "Exp_" + n, out: "Imp/Exp_" + n + ".lean", funcs: []string{"Exp"}, elem: "Element"})
 	}
+	// Hash (hash_to_field) and SetBigInt of every field package (imp_h2f.go)
+	for _, d := range fieldDirs {
+		n := leanName(d)
+		targets = append(targets, impTarget{dir: d, file: "element.go", ns: "H2F_" + n, out: "Imp/H2F_" + n + ".lean", funcs: []string{"SetBigInt", "Hash"}, elem: "Element", mode: "h2f"})
+	}
+	defer func() {
+		if impOnly == "" || impOnly == "H2F" {
+			writeH2FAll(expNames)
+		}
+	}()
 	defer func() {
 		if impOnly != "" && impOnly != "Exp" {
 			return
@@ -658,7 +692,7 @@ func runImp() {
 			continue
 		}
 		impAbsParams, impAbsArgs = "", ""
-		if tg.elem != "" {
+		if tg.elem != "" && tg.mode == "" {
 			impAbsParams, impAbsArgs = " {F : Type} (mul : F → F → F) (one : F) (inv : F → F)", " mul one inv"
 		}
 		out := filepath.Join(outDir, tg.out)
@@ -716,9 +750,17 @@ func runImp() {
 				}
 			}
 		}
+		var bodies strings.Builder
 		for _, fn := range tg.funcs {
-			b.WriteString(p.translateFunc(fn))
+			if tg.mode == "h2f" {
+				impAbsParams, impAbsArgs = h2fParams(fn)
+			}
+			bodies.WriteString(p.translateFunc(fn))
 		}
+		if tg.mode == "h2f" {
+			b.WriteString(p.h2fHeader())
+		}
+		b.WriteString(bodies.String())
 		fmt.Fprintf(&b, "end GV.Gen.Imp.%s\n", tg.ns)
 		writeFile(tg.out, b.String())
 		dieHook = nil
